@@ -152,6 +152,48 @@ def ext_pmce_decompress(ex, state, args, kwargs, sv):
     return VBytes(t)
 
 
+cz_data_f = z3.Function("cz_data", z3.IntSort(), BytesSort, BytesSort, BytesSort)
+cz_end_f = z3.Function("cz_end", z3.IntSort(), BytesSort, BytesSort)
+next_hist_f = z3.Function("cz_next_hist", z3.IntSort(), BytesSort, z3.IntSort())
+
+
+def ext_pmce_start(ex, state, args, kwargs, sv):
+    """start_compress_message(): a compressor is created when there is none (or context takeover is off); a new
+    compressor has the empty history and has absorbed nothing"""
+    g = _ghost(state)
+    o = state.heap[sv.oid]
+    comp = o.fields["_compressor"]
+    isnone = simp(disj([gd for gd, a in alts_of(comp) if isinstance(a, VNoneT)]))
+    renew = z3.Or(isnone, z3.Not(o.fields["_takeover"].t))
+    g.fields["comp_hist"] = VInt(simp(z3.If(renew, z3.IntVal(0), g.fields["comp_hist"].t)))
+    g.fields["n_absorbed"] = VInt(simp(z3.If(renew, z3.IntVal(0), g.fields["n_absorbed"].t)))
+    g.fields["rsv1_base"] = VInt(simp(z3.If(renew, g.fields["sent_rsv1_msgs"].t, g.fields["rsv1_base"].t)))
+    o.fields["_compressor"] = VInt(z3.Int(fresh_name("compressor")))
+    g.fields["comp_open"] = VBool(True)
+    g.fields["comp_in"] = VBytes(b"")
+    return VNone
+
+
+def ext_pmce_compress(ex, state, args, kwargs, sv):
+    """compress_message_data(data): some octets (a function of the compressor's history, what was fed before in this
+    message, and data); the data is absorbed into the open message"""
+    g = _ghost(state)
+    data = args[0]
+    r = cz_data_f(g.fields["comp_hist"].t, g.fields["comp_in"].t, data.t)
+    g.fields["comp_in"] = VBytes(simp(z3.Concat(g.fields["comp_in"].t, data.t)))
+    return VBytes(r)
+
+
+def ext_pmce_end(ex, state, args, kwargs, sv):
+    """end_compress_message(): the closing octets; the message is now part of the compressor's history"""
+    g = _ghost(state)
+    h, fed = g.fields["comp_hist"].t, g.fields["comp_in"].t
+    g.fields["comp_hist"] = VInt(next_hist_f(h, fed))
+    g.fields["n_absorbed"] = VInt(simp(g.fields["n_absorbed"].t + 1))
+    g.fields["comp_open"] = VBool(False)
+    return VBytes(cz_end_f(h, fed))
+
+
 def build_shapes(reg):
     reg.shape("TimerHandle", fields={"delay": "real", "kind": "int", "active": "bool"}, methods={"cancel": "timer.cancel"})
     reg.shape("Future", fields={"done": "bool"})
@@ -168,9 +210,18 @@ def build_shapes(reg):
     reg.shape("MaskerAny", fields={"_ptr": "nat", "_key": "bytes:4", "_null": "bool"},
               methods={"pointer": "masker.pointer", "process": "masker.process"})
     reg.shape("Timings", fields={}, methods={"track": "noop"})
-    reg.shape("PMCE", fields={"EXTENSION_NAME": "str"},
+    # a per-message compression engine (deflate / bzip2 / snappy / brotli share this interface): `_compressor` is None
+    # until the first message (and again after a reset); `_takeover` abstracts "context takeover in the sending direction"
+    reg.shape("PMCE", fields={"EXTENSION_NAME": "str", "_compressor": "opt:int", "_takeover": "bool"},
               methods={"start_decompress_message": "noop", "end_decompress_message": "noop",
-                       "decompress_message_data": "pmce.decompress"})
+                       "decompress_message_data": "pmce.decompress", "start_compress_message": "pmce.start_compress",
+                       "compress_message_data": "pmce.compress", "end_compress_message": "pmce.end_compress"})
+    reg.external("pmce.start_compress", ext_pmce_start)
+    reg.external("pmce.compress", ext_pmce_compress)
+    reg.external("pmce.end_compress", ext_pmce_end)
+    reg.native_spec("cz_data", lambda ex, state, h, a, b: VBytes(cz_data_f(ex.num(h), a.t, b.t)))
+    reg.native_spec("cz_end", lambda ex, state, h, a: VBytes(cz_end_f(ex.num(h), a.t)))
+    reg.native_spec("cz_next_hist", lambda ex, state, h, a: VInt(next_hist_f(ex.num(h), a.t)))
     reg.shape("Utf8ValidatorAny", fields={"_state": "range:0:8", "_index": "nat", "_codepoint": "int"},
               methods={"reset": "repo:autobahn.websocket.utf8validator:Utf8Validator.reset",
                        "validate": "repo:autobahn.websocket.utf8validator:Utf8Validator.validate"})
@@ -254,6 +305,9 @@ def build_shapes(reg):
         # message level view of the frames emitted so far (updated by sendFrame only)
         "cur_msg": "bytes", "in_msg": "bool", "sent_msgs": "list:bytes", "sent_binary": "list:bool",
         "cur_binary": "bool", "wellformed": "bool",
+        # RSV bits per message (the first frame's; continuation frames must carry none) and the compressor's view
+        "cur_rsv": "int", "sent_rsv": "list:int", "sent_rsv1_msgs": "nat", "comp_hist": "int", "comp_in": "bytes",
+        "comp_open": "bool", "n_absorbed": "nat", "rsv1_base": "nat",
     }, ghost=True)
     # the UTF-8 validator: contracts proved in C09, used here as assumed callee contracts
     from . import c09
